@@ -156,3 +156,77 @@ def truth_table(conds: list[tuple[ast.expr, bool]], atoms: dict[str, list], expe
         if taken != want:
             bad.append(", ".join(f"{k}={v!r}" for k, v in zip(keys, combo)) + f" -> {'taken' if taken else 'skipped'}")
     return bad
+
+
+def byte_fn(m: Model, mod, expr: ast.expr, sym: str):
+    """Compile a pure integer expression over one PDU byte (written `sym`, e.g. `self.pdu[0]`) into a python function of that
+    byte, for exhaustive evaluation over 0..255.  Returns None when the expression is outside this small language."""
+    def ev(e: ast.expr, b: int):
+        if ast.unparse(e) == sym:
+            return b
+        c = m.try_fold(mod, e)
+        if isinstance(c, int):
+            return int(c)
+        if isinstance(e, ast.BinOp):
+            a, c2 = ev(e.left, b), ev(e.right, b)
+            ops = {ast.Add: lambda x, y: x + y, ast.Sub: lambda x, y: x - y, ast.BitAnd: lambda x, y: x & y, ast.BitOr: lambda x, y: x | y,
+                   ast.BitXor: lambda x, y: x ^ y, ast.Mod: lambda x, y: x % y, ast.LShift: lambda x, y: x << y, ast.RShift: lambda x, y: x >> y}
+            if type(e.op) not in ops:
+                raise NotImplementedError(ast.unparse(e))
+            return ops[type(e.op)](a, c2)
+        if isinstance(e, ast.IfExp) and isinstance(e.test, ast.Compare) and len(e.test.ops) == 1:
+            l, rr = ev(e.test.left, b), ev(e.test.comparators[0], b)
+            t = {ast.Lt: l < rr, ast.LtE: l <= rr, ast.Gt: l > rr, ast.GtE: l >= rr, ast.Eq: l == rr, ast.NotEq: l != rr}.get(type(e.test.ops[0]))
+            if t is None:
+                raise NotImplementedError(ast.unparse(e))
+            return ev(e.body if t else e.orelse, b)
+        raise NotImplementedError(ast.unparse(e))
+    try:
+        ev(expr, 0)
+    except NotImplementedError:
+        return None
+    return lambda b: ev(expr, b)
+
+
+
+
+def bytes_repr_truncates(m: Model, max_length) -> str | None:
+    """Evaluate utils.bytes_repr (its source, in the finite-domain interpreter) for a byte string longer than every constant the
+    function mentions, with the max_length the caller ends up passing.  Returns a description if the result is not the complete
+    hex string, None if it is."""
+    import binascii
+    from . import miniterp
+    f = m.require_function(f"{UTILS}.bytes_repr")
+    consts = [n.value for n in ast.walk(f.node) if isinstance(n, ast.Constant) and isinstance(n.value, int) and not isinstance(n.value, bool)]
+    for v in f.module.assigns.values():
+        c = m.try_fold(f.module, v)
+        if isinstance(c, int) and not isinstance(c, bool):
+            consts.append(c)
+    n = 2 * max([abs(c) for c in consts] + [64]) + 50
+    data = bytes(range(256)) * (n // 256 + 1)
+    data = data[:n]
+    env: dict = {}
+    for k, v in f.module.assigns.items():
+        c = m.try_fold(f.module, v, default=NotImplemented)
+        if c is not NotImplemented and isinstance(c, (int, str, bytes, type(None))):
+            env[k] = c
+    params = f.params()
+    defaults = {k: m.try_fold(f.module, v) for k, v in f.param_defaults().items()}
+    env.update({params[0]: data})
+    for p_ in params[1:]:
+        env[p_] = defaults.get(p_)
+    env["max_length"] = max_length
+    if "prefix" in env:
+        env["prefix"] = False
+    def oracle(call: ast.Call, e):
+        if ast.unparse(call.func) in ("hexlify", "binascii.hexlify") and len(call.args) == 1:
+            return binascii.hexlify(miniterp.eval_expr(call.args[0], e, oracle))
+        return NotImplemented
+    ret, renv = miniterp.run_function(f.node, env, oracle)
+    if ret is None or ret.value is None:
+        return "bytes_repr returns nothing"
+    out = miniterp.eval_expr(ret.value, renv, oracle)
+    want = binascii.hexlify(data).decode()
+    if out != want:
+        return f"a {n}-byte string is rendered as {len(out) if isinstance(out, str) else type(out).__name__} characters ({out[:24]!r}...) instead of {len(want)}"
+    return None
